@@ -340,7 +340,8 @@ PROPS["C16"] = {
     "rule": ("a generated persisted history (as C07) with rotations that compact (admin REWRITEAOF path) and rotations whose compaction does not run (so that 1..4 append files "
              "plus an existing rewrite file accumulate) is quiesced and its directory copied (pre-compaction image); then ONE compaction runs synchronously and the hook points "
              "of the rewrite path copy the directory after every file-system mutation it performs (rewrite.aof.tmp written, each input removed, each value file removed, the two "
-             "renames, old append file closed / new one opened) - every crash point of that compaction is enumerated. Every image and the final directory are recovered by a fresh "
+             "renames, old append file closed / new one opened) - every crash point of that compaction is enumerated - and, while rewrite.aof.tmp is being written, "
+             "at the 1st, 2nd, 4th and 8th flush of it (before the records of the flush are written, and between its records and its values: partly written temp files). Every image and the final directory are recovered by a fresh "
              "leader: the in-package snapshot must equal the one recovered from the pre-compaction image, also when recovered a second time from what the first recovery left "
              "behind (it compacts again at start-up); the final directory must also recover the live persisted state. evaluations = histories; class 'crash images' counts the "
              "enumerated crash points. Non-trivial: >=2 append files compacted, an existing rewrite file, and a released hold in the inputs. Distinct = FNV-64 of the history."),
